@@ -13,7 +13,9 @@ TECHNIQUE = 'schedule controller (sys.monitoring local PY_START/PY_RETURN events
 LEVEL_TEXT = ('Held on the runs observed: for each slow/non-terminating student program x entry point x named interleaving, a real '
               'threaded execution times out while a controller forces the order in which the grader thread and the abandoned student '
               'thread reach _stop_mocking/_stop_patches/_capture_exception/_start_mocking (zombie-first, grader-first, zombie during '
-              'the next execution, zombie after the next execution) plus unforced runs; the oracle checks, at return AND after the '
+              'the next execution, zombie after the next execution) plus unforced runs, the student\'s code ending just as the limit expires, '
+              'and the limit expiring while the student thread is still preparing the execution (held at _execute, _start_mocking, '
+              '_start_patches, the limit guard, the start of each tracer until the grader has given up); the oracle checks, at return AND after the '
               'abandoned thread has finished: the call returned, get_exception() is a TimeoutError, exactly one new runtime feedback, '
               'borrowed process state restored and stacks empty, and the following executions produce exactly the output, result and '
               'exception a fresh sandbox produces. Evidence lists the distinct cross-thread event orders seen.')
